@@ -36,6 +36,8 @@ class Config:
         self.point_apps = []
         self.collision_free = False
         self.real_hash_for_concrete = True
+        self.alg_merge_points = False      # algebra: merge provably equal group elements eagerly
+        self.assume_nondegenerate = False  # algebra: no intermediate scalar / point is the neutral element
         self.float_precise = False     # int -> float32 conversions as FP terms (slow) instead of UF bytes
         self.log2_apps = []            # (n term, result term) of the log2 stub on this path
 
